@@ -21,10 +21,17 @@ func (P) ID() string { return "C18" }
 
 // ---------------------------------------------------------------- facts (T2)
 
+// tune reads the implementation's internal tuning values (channel capacities,
+// trickle batch size, known-inventory cache size) from the tree under test.
+// They are NOT facts to pin: the models are parametric in them and the harness
+// passes them on the protocol line where a scenario depends on them.
+func tune(name string) int {
+	return int(peer.VerifConstsC18()[name])
+}
+
 func (P) Facts() []core.Fact {
-	var fs []core.Fact
-	for k, v := range peer.VerifConstsC18() {
-		fs = append(fs, core.Fact{Name: k, Value: v})
+	fs := []core.Fact{
+		{Name: "defaultProtocolVersion", Value: peer.VerifConstsC18()["defaultProtocolVersion"]},
 	}
 	fs = append(fs,
 		core.Fact{Name: "maxProtocolVersion", Value: int64(peer.MaxProtocolVersion)},
@@ -41,7 +48,7 @@ func (P) Facts() []core.Fact {
 		core.Fact{Name: "rejectInvalid", Value: int64(wire.RejectInvalid)},
 		core.Fact{Name: "rejectObsolete", Value: int64(wire.RejectObsolete)},
 		core.Fact{Name: "rejectDuplicate", Value: int64(wire.RejectDuplicate)},
-		core.Fact{Name: "maxProtocolMessageLength", Value: int64(wire.MaxProtocolMessageLength)},
+		core.Fact{Name: "maxAddrPerMsg", Value: int64(wire.MaxAddrPerMsg)},
 	)
 	return fs
 }
@@ -103,14 +110,15 @@ func (P) Exec(line string) string {
 		}
 		return out
 	case "inv":
-		// C18 inv <n> <known> <dups> <blocks>
-		if len(f) != 6 {
+		// C18 inv <n> <known> <dups> <blocks> <batch size> <cache limit>
+		// (the last two are the tree's tuning values, for the model)
+		if len(f) != 8 {
 			return "bad-op"
 		}
 		var v [4]int
 		for i := range v {
 			x, err := strconv.Atoi(f[2+i])
-			if err != nil || x < 0 || x > 5000 {
+			if err != nil || x < 0 || x > 20000 {
 				return "bad-op"
 			}
 			v[i] = x
@@ -119,21 +127,6 @@ func (P) Exec(line string) string {
 			return "bad-op"
 		}
 		return runInv(v[0], v[1], v[2], v[3])
-	case "push":
-		// C18 push <ours> <theirs> <ops>
-		if len(f) != 5 {
-			return "bad-op"
-		}
-		o, err1 := strconv.ParseUint(f[2], 10, 31)
-		t, err2 := strconv.ParseUint(f[3], 10, 31)
-		if err1 != nil || err2 != nil || o <= 60000 || t <= 60000 {
-			return "bad-op"
-		}
-		var ops []string
-		if f[4] != "-" {
-			ops = strings.Split(f[4], ",")
-		}
-		return runPush(uint32(o), uint32(t), ops)
 	case "racerun":
 		// C18 racerun build=.. races=.. mism=..: result of the -race build of this
 		// harness, obtained in Generate (thorough tier).
@@ -185,7 +178,7 @@ func (P) Exec(line string) string {
 			return "bad-op"
 		}
 		n, err := strconv.Atoi(f[3])
-		if err != nil || n < 0 || n > 50 || (f[4] != "fail" && f[4] != "ok") {
+		if err != nil || n < 0 || n > tune("capOutputQueue") || (f[4] != "fail" && f[4] != "ok") {
 			return "bad-op"
 		}
 		return runPrestart(f[2] == "in", n, f[4] == "fail")
@@ -215,7 +208,7 @@ func (P) Exec(line string) string {
 		// (recorded by Generate, or by an earlier run when replaying); the
 		// implementation's side of the comparison is the fact that it was
 		// observed. The Lean model answers "ok" iff some schedule explains it.
-		if len(f) != 12 {
+		if len(f) != 13 {
 			return "bad-op"
 		}
 		return "ok"
@@ -481,16 +474,23 @@ func (P) Generate(g *core.Gen) {
 		}
 		g.Case(class, true, fmt.Sprintf("C18 hs2 %s %s %s", tr, strings.Join(f[2:9], " "), toks2))
 	}
-	// 2d. inventory trickle: batching at maxInvTrickleSize, known-inventory filter.
-	for _, c := range [][4]int{{0, 0, 0, 0}, {1, 0, 0, 1}, {999, 0, 0, 0}, {1000, 0, 0, 2}, {1001, 0, 0, 0},
-		{2000, 0, 0, 0}, {2001, 7, 3, 1}, {1500, 500, 400, 3}} {
-		g.Case("inv-trickle", c[0] > 0, fmt.Sprintf("C18 inv %d %d %d %d", c[0], c[1], c[2], c[3]))
+	// 2d. inventory trickle: batching at the tree's batch size B (B-1, B, B+1, 2B,
+	// 2B+1), known-inventory filter and cache eviction (limit L).
+	B, L := tune("maxInvTrickleSize"), tune("maxKnownInventory")
+	invLine := func(n, k, d, b int) string {
+		return fmt.Sprintf("C18 inv %d %d %d %d %d %d", n, k, d, b, B, L)
 	}
-	for i, n := 0, g.N(2, 60); i < n; i++ {
-		nn := int(r.Range(1, 3200))
-		k := r.Intn(nn/2 + 1)
-		d := r.Intn(nn - k + 1)
-		g.Case("inv-trickle", true, fmt.Sprintf("C18 inv %d %d %d %d", nn, k, d, r.Intn(5)))
+	if B >= 2 && B <= 4000 && L >= 8 {
+		for _, c := range [][4]int{{0, 0, 0, 0}, {1, 0, 0, 1}, {B - 1, 0, 0, 0}, {B, 0, 0, 2}, {B + 1, 0, 0, 0},
+			{2 * B, 0, 0, 0}, {2*B + 1, 7, 3, 1}, {B + B/2, B / 2, B / 3, 3}} {
+			g.Case("inv-trickle", c[0] > 0, invLine(c[0], c[1], c[2], c[3]))
+		}
+		for i, n := 0, g.N(2, 60); i < n; i++ {
+			nn := int(r.Range(1, int64(3*B+200)))
+			k := r.Intn(nn/2 + 1)
+			d := r.Intn(nn - k + 1)
+			g.Case("inv-trickle", true, invLine(nn, k, d, r.Intn(5)))
+		}
 	}
 	// 2e. Push* entry points of a ready peer.
 	for i, n := 0, g.N(100, 3000); i < n; i++ {
@@ -521,11 +521,15 @@ func (P) Generate(g *core.Gen) {
 	// 3. messages queued while the handshake is still in progress.
 	for _, dir := range []string{"in", "out"} {
 		for _, mode := range []string{"fail", "ok"} {
-			for _, n := range []int{0, 1, 2, 7, 49, 50} {
+			capOut := tune("capOutputQueue")
+			for _, n := range []int{0, 1, 2, 7, capOut - 1, capOut} {
+				if n < 0 {
+					continue
+				}
 				g.Case("prestart-"+mode, n > 0, fmt.Sprintf("C18 prestart %s %d %s", dir, n, mode))
 			}
 			for i, k := 0, g.N(6, 200); i < k; i++ {
-				g.Case("prestart-"+mode, true, fmt.Sprintf("C18 prestart %s %d %s", dir, 1+r.Intn(50), mode))
+				g.Case("prestart-"+mode, true, fmt.Sprintf("C18 prestart %s %d %s", dir, 1+r.Intn(tune("capOutputQueue")), mode))
 			}
 		}
 	}
@@ -551,9 +555,14 @@ func (P) Generate(g *core.Gen) {
 		if r.Chance(1, 10) {
 			c.nProd, c.nMsg = 8+r.Intn(9), 10+r.Intn(20)
 		}
+		if co := tune("capOutputQueue"); c.nProd >= co && co >= 2 {
+			// more callers in flight than the buffer holds may block for good
+			c.nProd = co - 1
+		}
 		c.fireAt = r.Intn(c.nProd*c.nMsg + 1)
 		if c.invCallers > 0 && r.Chance(1, 2) {
-			c.invExtra = 40 + r.Intn(40)
+			ci := tune("capOutputInvChan")
+			c.invExtra = ci + r.Intn(ci+1)
 		}
 		o := runPipe(c)
 		class := fmt.Sprintf("pipe-mode%d", c.mode)
